@@ -1,28 +1,833 @@
-//! C11 — (stub; to be implemented, see DESIGN.md section 5 and HARNESS.md)
+//! C11 — variant accessors (IsVariant / Unwrap / TryUnwrap / TryInto) agree with the value's variant and
+//! never lose data; names are snake_case of the variant.
+//!
+//! Every case is one enum deriving a subset of the four derives plus a `run` that evaluates the FULL
+//! table (one value per variant) x (every generated accessor) against hand-written `match`es:
+//! owned forms compare values, `_ref`/`_mut` forms compare addresses, panics are caught, errors must
+//! carry the unchanged input. Accessors are called by their expected snake_case name.
+//!
+//! *Which* accessors exist is asserted (by calling them, resp. by defining a colliding item for the ones that
+//! must be absent) only where impl/doc/*.md is unambiguous; everything else that the in-process expansion
+//! of the same tree shows (`pub fn` names, `TryFrom` impl headers) is checked as well.
+use super::dm;
 use super::progprop::*;
+use super::proggen::CaseResult;
+use super::tok;
+use serde_json::json;
+use std::collections::BTreeSet;
 
-fn build(_d: &mut Dice) -> GenCase {
-    let mut c = GenCase::new("pub fn run(o: &mut Out) { o.check(\"stub\", true); }".to_string());
-    c.nontrivial = false;
+pub const PRELUDE: &str = r#"
+#[derive(Debug, Clone, PartialEq)] pub struct A(pub u32);
+#[derive(Debug, Clone, PartialEq)] pub struct B(pub u32);
+#[derive(Debug, Clone, PartialEq)] pub struct C(pub u32);
+#[derive(Debug, Clone, PartialEq)] pub struct D(pub u64);
+#[derive(Debug, Clone, PartialEq)] pub struct W<T>(pub T, pub u8);
+pub fn lk(n: u32) -> &'static A { Box::leak(Box::new(A(n))) }
+pub fn addr<T>(r: &T) -> usize { r as *const T as usize }
+pub fn ck(o: &mut Out, what: &str, i: usize, exp: String, got: String) {
+    o.eq(what, &format!("value #{i}: {exp}"), &format!("value #{i}: {got}"));
+}
+"#;
+
+const DERIVES: [&str; 4] = ["IsVariant", "Unwrap", "TryUnwrap", "TryInto"];
+const ATTRS: [&str; 4] = ["is_variant", "unwrap", "try_unwrap", "try_into"];
+const KINDS: [&str; 3] = ["owned", "ref", "ref_mut"];
+
+/// (declared type, type in the instantiation `EC`, generic parameters used: 1 = T, 2 = 'a, 4 = N)
+const TYS: [(&str, &str, u8); 8] = [
+    ("A", "A", 0),
+    ("B", "B", 0),
+    ("C", "C", 0),
+    ("D", "D", 0),
+    ("W<T>", "W<C>", 1),
+    ("T", "C", 1),
+    ("&'a A", "&'static A", 2),
+    ("[A; N]", "[A; 2]", 4),
+];
+
+fn value_of(ty: usize, n: usize) -> String {
+    match ty {
+        0 => format!("A({n})"),
+        1 => format!("B({n})"),
+        2 => format!("C({n})"),
+        3 => format!("D({n})"),
+        4 => format!("W(C({n}), 7)"),
+        5 => format!("C({n})"),
+        6 => format!("lk({n})"),
+        _ => format!("[A({n}), A({})]", n + 100),
+    }
+}
+
+#[derive(Clone, Debug)]
+struct Fld {
+    ty: usize,
+    name: Option<String>,
+    ti_ignore: bool,
+}
+
+#[derive(Clone, Copy, PartialEq, Debug)]
+enum VK {
+    Unit,
+    Tuple,
+    Named,
+}
+
+#[derive(Clone, Debug)]
+struct Var {
+    ident: String,
+    plain: String,
+    snake: String,
+    kind: VK,
+    fields: Vec<Fld>,
+    ignore: [bool; 4],
+    /// variant-level attribute arguments other than `ignore` (`""` = bare attribute)
+    level: [Option<String>; 4],
+}
+
+impl Var {
+    fn path(&self) -> String {
+        format!("E::{}", self.ident)
+    }
+    /// pattern binding field `k` to `binds[k]` (`_` for None)
+    fn pat(&self, binds: &[Option<String>]) -> String {
+        let b = |k: usize| binds[k].clone().unwrap_or_else(|| "_".into());
+        match self.kind {
+            VK::Unit => self.path(),
+            VK::Tuple => format!("{}({})", self.path(), (0..self.fields.len()).map(b).collect::<Vec<_>>().join(", ")),
+            VK::Named => format!(
+                "{} {{ {} }}",
+                self.path(),
+                self.fields.iter().enumerate().map(|(k, f)| format!("{}: {}", f.name.as_ref().unwrap(), b(k))).collect::<Vec<_>>().join(", ")
+            ),
+        }
+    }
+    fn all_binds(&self) -> Vec<Option<String>> {
+        (0..self.fields.len()).map(|k| Some(format!("f{k}"))).collect()
+    }
+    fn ti_binds(&self) -> Vec<Option<String>> {
+        self.fields.iter().enumerate().map(|(k, f)| if f.ti_ignore { None } else { Some(format!("f{k}")) }).collect()
+    }
+    /// declared types of the fields TryInto converts to
+    fn ti_types(&self) -> Vec<usize> {
+        self.fields.iter().filter(|f| !f.ti_ignore).map(|f| f.ty).collect()
+    }
+}
+
+fn tuple_expr(names: &[String]) -> String {
+    match names.len() {
+        0 => "()".into(),
+        1 => names[0].clone(),
+        _ => format!("({})", names.join(", ")),
+    }
+}
+fn addrs(names: &[String]) -> String {
+    format!("Vec::<usize>::from([{}])", names.iter().map(|n| format!("addr({n})")).collect::<Vec<_>>().join(", "))
+}
+fn tpl(t: &str, subs: &[(&str, &str)]) -> String {
+    let mut s = t.to_string();
+    for (k, v) in subs {
+        s = s.replace(k, v);
+    }
+    s
+}
+
+const WORDS: [&str; 10] = ["Foo", "Bar", "Http", "Request", "Id", "Version", "Two", "Ab", "Left", "Nothing"];
+const EXTRA: [&str; 5] = ["Alpha", "Beta", "Gamma", "Delta", "Omega"];
+const KEYWORDS: [&str; 4] = ["type", "match", "fn", "loop"];
+const FIELD_NAMES: [&str; 4] = ["x", "y", "value", "r#fn"];
+
+/// What the expansion of the same tree (in-process) declares: method names and `TryFrom` impl headers.
+#[derive(Default, Debug)]
+struct Found {
+    fns: BTreeSet<String>,
+    /// (kind index, normalised element types)
+    tryfrom: Vec<(usize, Vec<String>)>,
+    notes: Vec<String>,
+}
+
+fn norm_ty(s: &str) -> String {
+    match syn::parse_str::<syn::Type>(s) {
+        Ok(t) => tok::ts_string(&t),
+        Err(_) => tok::norm(s),
+    }
+}
+
+fn discover(item: &str, derives: &[usize]) -> Found {
+    let mut f = Found::default();
+    let Ok(di) = syn::parse_str::<syn::DeriveInput>(item) else {
+        f.notes.push("item does not parse".into());
+        return f;
+    };
+    for &k in derives {
+        let Some(d) = dm::Derive::by_name(DERIVES[k]) else { continue };
+        let ts = match dm::expand(d, &di) {
+            dm::Outcome::Ok(ts) => ts,
+            o => {
+                f.notes.push(format!("{}: {}", DERIVES[k], o.kind()));
+                continue;
+            }
+        };
+        let Ok(impls) = tok::impls(&ts) else { continue };
+        for imp in impls {
+            if k < 3 {
+                for it in &imp.items {
+                    if let syn::ImplItem::Fn(m) = it {
+                        f.fns.insert(m.sig.ident.to_string());
+                    }
+                }
+                continue;
+            }
+            let Some((_, path, _)) = &imp.trait_ else { continue };
+            let Some(seg) = path.segments.last() else { continue };
+            if seg.ident != "TryFrom" {
+                continue;
+            }
+            let syn::PathArguments::AngleBracketed(ab) = &seg.arguments else { continue };
+            let Some(syn::GenericArgument::Type(src)) = ab.args.first() else { continue };
+            let kind = match src {
+                syn::Type::Reference(r) if r.mutability.is_some() => 2,
+                syn::Type::Reference(_) => 1,
+                _ => 0,
+            };
+            let mut elems: Vec<syn::Type> = match &*imp.self_ty {
+                syn::Type::Tuple(t) => t.elems.iter().cloned().collect(),
+                syn::Type::Paren(p) => vec![(*p.elem).clone()],
+                other => vec![other.clone()],
+            };
+            if kind > 0 {
+                for e in elems.iter_mut() {
+                    if let syn::Type::Reference(r) = e {
+                        *e = (*r.elem).clone();
+                    }
+                }
+            }
+            f.tryfrom.push((kind, elems.iter().map(|e| tok::ts_string(e)).collect()));
+        }
+    }
+    f
+}
+
+struct Model {
+    vars: Vec<Var>,
+    derives: Vec<usize>,
+    enum_level: [Option<String>; 4],
+    /// generic parameters declared: 1 = T, 2 = 'a, 4 = N
+    params: u8,
+    bound_style: usize,
+}
+
+impl Model {
+    fn has(&self, k: usize) -> bool {
+        self.derives.contains(&k)
+    }
+    fn generics(&self) -> (String, String, String, String) {
+        // (declaration on the enum, impl generics, type arguments, where clause)
+        let mut decl = vec![];
+        let mut args = vec![];
+        let mut inst = vec![];
+        if self.params & 2 != 0 {
+            decl.push("'a".to_string());
+            args.push("'a".to_string());
+            inst.push("'static".to_string());
+        }
+        if self.params & 1 != 0 {
+            decl.push(if self.bound_style == 1 { "T: Clone".to_string() } else { "T".to_string() });
+            args.push("T".into());
+            inst.push("C".into());
+        }
+        if self.params & 4 != 0 {
+            decl.push("const N: usize".into());
+            args.push("N".into());
+            inst.push("2".into());
+        }
+        let wh = if self.params & 1 != 0 && self.bound_style == 2 { "where T: Clone".to_string() } else { String::new() };
+        if decl.is_empty() {
+            (String::new(), String::new(), String::new(), wh)
+        } else {
+            (format!("<{}>", decl.join(", ")), format!("<{}>", args.join(", ")), format!("<{}>", inst.join(", ")), wh)
+        }
+    }
+    fn item(&self, with_derives: bool) -> String {
+        let (decl, _, _, wh) = self.generics();
+        let mut s = String::new();
+        if with_derives {
+            let ds: Vec<String> = self.derives.iter().map(|k| format!("derive_more::{}", DERIVES[*k])).collect();
+            s.push_str(&format!("#[derive(Debug, Clone, PartialEq, {})]\n", ds.join(", ")));
+            for &k in &self.derives {
+                if let Some(a) = &self.enum_level[k] {
+                    s.push_str(&format!("#[{}({a})]\n", ATTRS[k]));
+                }
+            }
+        } else {
+            s.push_str("#[derive(Debug, Clone, PartialEq)]\n");
+        }
+        s.push_str(&format!("pub enum E{decl} {wh} {{\n"));
+        for v in &self.vars {
+            if with_derives {
+                for &k in &self.derives {
+                    if v.ignore[k] {
+                        s.push_str(&format!("    #[{}(ignore)]\n", ATTRS[k]));
+                    } else if let Some(l) = &v.level[k] {
+                        if l.is_empty() {
+                            s.push_str(&format!("    #[{}]\n", ATTRS[k]));
+                        } else {
+                            s.push_str(&format!("    #[{}({l})]\n", ATTRS[k]));
+                        }
+                    }
+                }
+            }
+            let fld = |f: &Fld| {
+                let ig = if with_derives && f.ti_ignore && self.has(3) { "#[try_into(ignore)] " } else { "" };
+                match &f.name {
+                    Some(n) => format!("{ig}{n}: {}", TYS[f.ty].0),
+                    None => format!("{ig}{}", TYS[f.ty].0),
+                }
+            };
+            let body = match v.kind {
+                VK::Unit => String::new(),
+                VK::Tuple => format!("({})", v.fields.iter().map(fld).collect::<Vec<_>>().join(", ")),
+                VK::Named => format!(" {{ {} }}", v.fields.iter().map(fld).collect::<Vec<_>>().join(", ")),
+            };
+            s.push_str(&format!("    {}{body},\n", v.ident));
+        }
+        s.push_str("}\n");
+        s
+    }
+    fn mk(&self) -> String {
+        let (_, _, inst, _) = self.generics();
+        let mut s = format!("pub type EC = E{inst};\npub const NV: usize = {};\n#[allow(unreachable_patterns)]\npub fn mk(i: usize) -> EC {{\n    match i {{\n", self.vars.len());
+        for (vi, v) in self.vars.iter().enumerate() {
+            let vals: Vec<String> = v.fields.iter().enumerate().map(|(fi, f)| value_of(f.ty, 10 * (vi + 1) + fi)).collect();
+            let ctor = match v.kind {
+                VK::Unit => v.path(),
+                VK::Tuple => format!("{}({})", v.path(), vals.join(", ")),
+                VK::Named => format!(
+                    "{} {{ {} }}",
+                    v.path(),
+                    v.fields.iter().zip(&vals).map(|(f, x)| format!("{}: {x}", f.name.as_ref().unwrap())).collect::<Vec<_>>().join(", ")
+                ),
+            };
+            s.push_str(&format!("        {vi} => {ctor},\n"));
+        }
+        s.push_str("        _ => unreachable!(),\n    }\n}\n");
+        s
+    }
+}
+
+fn gen_model(d: &mut Dice) -> Model {
+    let gen_mode = d.weighted(&[50, 22, 8, 6, 7, 7]);
+    let allowed: u8 = [0, 1, 2, 3, 4, 7][gen_mode];
+    let allow_named = d.chance(30);
+    let cands: Vec<usize> = if allow_named { vec![0, 3] } else { vec![0, 1, 2, 3] };
+    let mut derives: Vec<usize> = cands.iter().copied().filter(|_| d.chance(65)).collect();
+    if derives.is_empty() {
+        derives.push(cands[d.pick(cands.len())]);
+    }
+    let has_ti = derives.contains(&3);
+    let nv = 1 + d.weighted(&[2, 4, 5, 4, 2]);
+    let raw_at = if d.chance(4) { Some(d.pick(nv)) } else { None };
+    let mut vars: Vec<Var> = vec![];
+    let pick_ty = |d: &mut Dice, ignored: bool| -> usize {
+        let w: Vec<u32> = TYS
+            .iter()
+            .enumerate()
+            .map(|(i, t)| {
+                if t.2 & !allowed != 0 {
+                    return 0;
+                }
+                // a bare type parameter as TryInto target would be an orphan-rule violation of the *input*
+                if i == 5 && has_ti && !ignored {
+                    return 0;
+                }
+                [5, 4, 2, 1, 4, 4, 4, 4][i]
+            })
+            .collect();
+        d.weighted(&w)
+    };
+    for vi in 0..nv {
+        // name
+        let nw = 1 + d.weighted(&[4, 5, 2]);
+        let mut words: Vec<String> = (0..nw).map(|_| WORDS[d.pick(WORDS.len())].to_string()).collect();
+        let style = d.weighted(&[75, 25]);
+        let mut raw = false;
+        if raw_at == Some(vi) {
+            raw = true;
+            if d.chance(50) {
+                words = vec![KEYWORDS[d.pick(KEYWORDS.len())].to_string()];
+            }
+        }
+        let snake_of = |w: &[String]| w.iter().map(|x| x.to_lowercase()).collect::<Vec<_>>().join("_");
+        if vars.iter().any(|v: &Var| v.snake == snake_of(&words)) {
+            words.push(EXTRA[vi].to_string());
+        }
+        let snake = snake_of(&words);
+        let keyword = raw && words.len() == 1 && KEYWORDS.contains(&words[0].as_str());
+        let plain = if keyword || style == 1 { snake.clone() } else { words.concat() };
+        let ident = if raw { format!("r#{plain}") } else { plain.clone() };
+        // shape
+        let kind = [VK::Unit, VK::Tuple, VK::Named][d.weighted(&[2, 6, if allow_named { 4 } else { 0 }])];
+        let mut fields: Vec<Fld> = vec![];
+        if kind != VK::Unit {
+            let with_fields: Vec<usize> = (0..vars.len()).filter(|i| !vars[*i].fields.is_empty()).collect();
+            if !with_fields.is_empty() && d.chance(35) {
+                let src = &vars[with_fields[d.pick(with_fields.len())]];
+                for f in &src.fields {
+                    if has_ti && f.ty == 5 {
+                        // a bare parameter is only usable in an ignored position
+                        fields.push(Fld { ty: f.ty, name: None, ti_ignore: true });
+                    } else {
+                        fields.push(Fld { ty: f.ty, name: None, ti_ignore: has_ti && d.chance(12) });
+                    }
+                }
+            } else {
+                let nf = d.weighted(&[1, 5, 5, 3]);
+                for _ in 0..nf {
+                    let ig = has_ti && d.chance(15);
+                    fields.push(Fld { ty: pick_ty(d, ig), name: None, ti_ignore: ig });
+                }
+            }
+            if kind == VK::Named {
+                for (k, f) in fields.iter_mut().enumerate() {
+                    f.name = Some(FIELD_NAMES[k].to_string());
+                }
+            }
+        }
+        vars.push(Var { ident, plain, snake, kind, fields, ignore: [false; 4], level: [None, None, None, None] });
+    }
+    // make sure every allowed generic parameter is used somewhere if there is a field at all
+    let mut params: u8 = vars.iter().flat_map(|v| v.fields.iter()).fold(0, |a, f| a | TYS[f.ty].2);
+    for (bit, ty) in [(1u8, 4usize), (2, 6), (4, 7)] {
+        if allowed & bit != 0 && params & bit == 0 {
+            if let Some(f) = vars.iter_mut().flat_map(|v| v.fields.iter_mut()).find(|f| TYS[f.ty].2 == 0) {
+                f.ty = ty;
+                params |= bit;
+            }
+        }
+    }
+    // attributes
+    let mut enum_level: [Option<String>; 4] = [None, None, None, None];
+    let refs_tbl = ["ref", "ref_mut", "ref, ref_mut", "owned, ref, ref_mut", "owned", "owned, ref", "ref_mut, owned"];
+    let lvl_tbl = ["ref", "ref_mut", "owned", "owned, ref", "ref, ref_mut"];
+    for &k in &derives {
+        if k == 0 {
+            for v in vars.iter_mut() {
+                v.ignore[0] = d.chance(15);
+            }
+            continue;
+        }
+        if d.chance(50) {
+            enum_level[k] = Some(refs_tbl[d.weighted(&[4, 3, 4, 4, 1, 1, 1])].to_string());
+        }
+        let mode = if k == 3 { d.weighted(&[55, 22, 13, 10]) } else { d.weighted(&[55, 32, 0, 13]) };
+        match mode {
+            0 => {}
+            1 => {
+                for v in vars.iter_mut() {
+                    v.ignore[k] = d.chance(30);
+                }
+            }
+            2 => {
+                // documented opt-in: bare `#[try_into]` on the variants wanted
+                let mut any = false;
+                for v in vars.iter_mut() {
+                    if d.chance(50) {
+                        v.level[k] = Some(String::new());
+                        any = true;
+                    }
+                }
+                if !any {
+                    vars[0].level[k] = Some(String::new());
+                }
+            }
+            _ => {
+                // variant-level owned/ref/ref_mut (and for TryInto a mix of opt-in and ignore): the
+                // documentation does not say crisply which accessors result; the set is read from the expansion
+                let at = d.pick(nv);
+                for (i, v) in vars.iter_mut().enumerate() {
+                    if i == at {
+                        v.level[k] = Some(lvl_tbl[d.pick(lvl_tbl.len())].to_string());
+                    } else if d.chance(25) {
+                        v.ignore[k] = true;
+                    } else if d.chance(20) {
+                        v.level[k] = Some(if k == 3 && d.chance(50) { String::new() } else { lvl_tbl[d.pick(lvl_tbl.len())].to_string() });
+                    }
+                }
+            }
+        }
+    }
+    let bound_style = if params & 1 != 0 { d.weighted(&[5, 3, 2]) } else { 0 };
+    Model { vars, derives, enum_level, params, bound_style }
+}
+
+fn kinds_listed(a: &Option<String>) -> Vec<usize> {
+    match a {
+        None => vec![],
+        Some(s) => {
+            let parts: Vec<&str> = s.split(',').map(|x| x.trim()).collect();
+            (0..3).filter(|k| parts.contains(&KINDS[*k])).collect()
+        }
+    }
+}
+
+fn build(d: &mut Dice) -> GenCase {
+    let m = gen_model(d);
+    render(&m)
+}
+
+fn render(m: &Model) -> GenCase {
+    let item = m.item(true);
+    let found = discover(&item, &m.derives);
+    let (_, impl_args, _, wh) = m.generics();
+    let (decl_gen, _, _, _) = m.generics();
+    let mut body = String::new();
+    body.push_str(&item);
+    body.push_str(&m.mk());
+    let mut run = String::new();
+    let mut probes = String::new();
+    let mut labels: Vec<String> = m.derives.iter().map(|k| format!("derive={}", DERIVES[*k])).collect();
+    let mut n_accessors = 0usize;
+    let mut n_from_expansion = 0usize;
+
+    // ---------------------------------------------------------------- IsVariant / Unwrap / TryUnwrap
+    let suffix = ["", "_ref", "_mut"];
+    let mut all_names: BTreeSet<String> = BTreeSet::new();
+    for &k in m.derives.iter().filter(|k| **k < 3) {
+        let murky = k > 0 && m.vars.iter().any(|v| v.level[k].is_some());
+        let listed = kinds_listed(&m.enum_level[k]);
+        for v in &m.vars {
+            let forms: Vec<usize> = if k == 0 { vec![0] } else { vec![0, 1, 2] };
+            for form in forms {
+                let name = match k {
+                    0 => format!("is_{}", v.snake),
+                    1 => format!("unwrap_{}{}", v.snake, suffix[form]),
+                    _ => format!("try_unwrap_{}{}", v.snake, suffix[form]),
+                };
+                all_names.insert(name.clone());
+                if v.ignore[k] {
+                    // documented: no accessor for an ignored variant. A user-defined method of the same name
+                    // collides (E0592) iff the derive generated one anyway.
+                    probes.push_str(&format!("    pub fn {name}(&self) -> u8 {{ 0 }}\n"));
+                    continue;
+                }
+                let expected = if k == 0 {
+                    true
+                } else if murky {
+                    false
+                } else if form == 0 {
+                    // no attribute: owned; `#[unwrap(ref)]` alone: the documentation's example lists the owned form too
+                    m.enum_level[k].is_none() || listed.contains(&0) || m.enum_level[k].as_deref() == Some("ref")
+                } else {
+                    listed.contains(&form)
+                };
+                let in_exp = found.fns.contains(&name);
+                if !expected && !in_exp {
+                    continue;
+                }
+                if !expected {
+                    n_from_expansion += 1;
+                }
+                n_accessors += 1;
+                let binds: Vec<String> = (0..v.fields.len()).map(|i| format!("f{i}")).collect();
+                let abinds: Vec<String> = (0..v.fields.len()).map(|i| format!("a{i}")).collect();
+                let pat = v.pat(&v.all_binds());
+                let subs: Vec<(&str, String)> = vec![
+                    ("$FN$", name.clone()),
+                    ("$V$", v.plain.clone()),
+                    ("$PAT$", pat),
+                    ("$TUP$", tuple_expr(&binds)),
+                    ("$CLO$", tuple_expr(&abinds)),
+                    ("$ADDRS_A$", addrs(&abinds)),
+                    ("$ADDRS_F$", addrs(&binds)),
+                    ("$VI$", m.vars.iter().position(|x| x.ident == v.ident).unwrap().to_string()),
+                ];
+                let subs: Vec<(&str, &str)> = subs.iter().map(|(a, b)| (*a, b.as_str())).collect();
+                let t = match (k, form) {
+                    (0, _) => r#"    for i in 0..NV {
+        ck(o, "$FN$() is true iff the value is $V$", i, format!("{}", matches!(mk(i), $PAT$)), format!("{}", mk(i).$FN$()));
+    }
+"#,
+                    (1, 0) => r#"    for i in 0..NV {
+        let r = __catch(|| mk(i).$FN$()).ok();
+        let e = match mk(i) { $PAT$ => Some($TUP$), _ => None };
+        ck(o, "$FN$() returns the fields of $V$ in order iff the value is $V$, otherwise panics", i, format!("{e:?}"), format!("{r:?}"));
+    }
+"#,
+                    (1, 1) => r#"    for i in 0..NV {
+        let v = mk(i);
+        let r = __catch(|| v.$FN$()).ok().map(|$CLO$| $ADDRS_A$);
+        let e = match &v { $PAT$ => Some($ADDRS_F$), _ => None };
+        ck(o, "$FN$() returns references to the very fields of $V$ in order iff the value is $V$, otherwise panics", i, format!("{e:?}"), format!("{r:?}"));
+    }
+"#,
+                    (1, _) => r#"    for i in 0..NV {
+        let mut v = mk(i);
+        let r = __catch(|| v.$FN$()).ok().map(|$CLO$| $ADDRS_A$);
+        let e = match &v { $PAT$ => Some($ADDRS_F$), _ => None };
+        ck(o, "$FN$() returns references to the very fields of $V$ in order iff the value is $V$, otherwise panics", i, format!("{e:?}"), format!("{r:?}"));
+        ck(o, "$FN$() leaves the value unchanged", i, format!("{:?}", mk(i)), format!("{v:?}"));
+    }
+"#,
+                    (_, 0) => r#"    for i in 0..NV {
+        let r = match mk(i).$FN$() { Ok(x) => format!("Ok({x:?})"), Err(e) => format!("Err(input = {:?})", e.input) };
+        let e = match mk(i) { $PAT$ => format!("Ok({:?})", $TUP$), w => format!("Err(input = {w:?})") };
+        ck(o, "$FN$() returns the fields of $V$ in order iff the value is $V$, otherwise an error carrying the unchanged input", i, e, r);
+    }
+"#,
+                    (_, 1) => r#"    for i in 0..NV {
+        let v = mk(i);
+        let r = match v.$FN$() { Ok($CLO$) => format!("Ok({:?})", $ADDRS_A$), Err(e) => format!("Err(input at {})", addr(e.input)) };
+        let e = match &v { $PAT$ => format!("Ok({:?})", $ADDRS_F$), w => format!("Err(input at {})", addr(w)) };
+        ck(o, "$FN$() returns references to the very fields of $V$ iff the value is $V$, otherwise an error carrying the very input", i, e, r);
+    }
+"#,
+                    (_, _) => r#"    for i in 0..NV {
+        let mut v = mk(i);
+        let r = match v.$FN$() { Ok($CLO$) => format!("Ok({:?})", $ADDRS_A$), Err(e) => format!("Err(input at {})", addr(&*e.input)) };
+        let e = match &v { $PAT$ => format!("Ok({:?})", $ADDRS_F$), w => format!("Err(input at {})", addr(w)) };
+        ck(o, "$FN$() returns references to the very fields of $V$ iff the value is $V$, otherwise an error carrying the very input", i, e, r);
+        ck(o, "$FN$() leaves the value unchanged", i, format!("{:?}", mk(i)), format!("{v:?}"));
+    }
+"#,
+                };
+                run.push_str(&tpl(t, &subs));
+            }
+        }
+    }
+    // names the expansion declares that are not `<prefix>_<snake_case(variant)>[_ref|_mut]` of any variant
+    let strangers: Vec<&String> = found.fns.iter().filter(|n| !all_names.contains(*n)).collect();
+    for s in &strangers {
+        run.push_str(&format!(
+            "    o.fail(\"every generated method is named after snake_case of a variant\", \"one of {}\", \"{s}\");\n",
+            all_names.iter().cloned().collect::<Vec<_>>().join(" ")
+        ));
+    }
+
+    // ---------------------------------------------------------------- TryInto
+    let mut shared_tuple = false;
+    {
+        // groups by the non-ignored field types (as derive_more does: by the types as written)
+        let mut tuples: Vec<Vec<usize>> = vec![];
+        for v in &m.vars {
+            let t = v.ti_types();
+            if !tuples.contains(&t) {
+                tuples.push(t);
+            } else {
+                shared_tuple = true;
+            }
+        }
+        if m.has(3) {
+            let k = 3;
+            let any_level = m.vars.iter().any(|v| v.level[k].as_ref().is_some_and(|l| !l.is_empty()));
+            let any_bare = m.vars.iter().any(|v| v.level[k].as_ref().is_some_and(|l| l.is_empty()));
+            let any_ignore = m.vars.iter().any(|v| v.ignore[k]);
+            let murky = any_level || (any_bare && any_ignore);
+            let enabled = |v: &Var| -> bool {
+                if any_bare {
+                    v.level[k].is_some()
+                } else {
+                    !v.ignore[k]
+                }
+            };
+            let listed = kinds_listed(&m.enum_level[k]);
+            let expected_kinds: Vec<usize> = if murky {
+                vec![]
+            } else if m.enum_level[k].is_none() {
+                vec![0]
+            } else {
+                listed.clone()
+            };
+            for t in &tuples {
+                let compat: Vec<&Var> = m.vars.iter().filter(|v| &v.ti_types() == t).collect();
+                let succ: Vec<&Var> = compat.iter().copied().filter(|v| enabled(v)).collect();
+                let decl_norm: Vec<String> = t.iter().map(|i| norm_ty(TYS[*i].0)).collect();
+                if !murky && succ.is_empty() {
+                    // documented: ignored / not opted-in variants get no impl. A user impl for the same pair of
+                    // types collides (E0119) iff the derive generated one anyway.
+                    let decl_tuple = tuple_expr(&t.iter().map(|i| TYS[*i].0.to_string()).collect::<Vec<_>>());
+                    body.push_str(&format!(
+                        "impl{decl_gen} ::core::convert::TryFrom<E{impl_args}> for {decl_tuple} {wh} {{ type Error = (); fn try_from(_: E{impl_args}) -> Result<Self, ()> {{ Err(()) }} }}\n"
+                    ));
+                    continue;
+                }
+                for kind in 0..3 {
+                    let expected = !succ.is_empty() && expected_kinds.contains(&kind);
+                    let in_exp = found.tryfrom.iter().any(|(fk, ft)| *fk == kind && ft == &decl_norm);
+                    if !expected && !in_exp {
+                        continue;
+                    }
+                    if !expected {
+                        n_from_expansion += 1;
+                    }
+                    n_accessors += 1;
+                    let pre = ["", "&", "&mut "][kind];
+                    let ty = tuple_expr(&t.iter().map(|i| format!("{pre}{}", TYS[*i].1)).collect::<Vec<_>>());
+                    let what = format!(
+                        "TryFrom<{pre}E> for {}: succeeds with the non-ignored fields in order exactly for the variants with these field types, otherwise returns the original value in the error",
+                        tuple_expr(&t.iter().map(|i| format!("{pre}{}", TYS[*i].0)).collect::<Vec<_>>())
+                    );
+                    let n = t.len();
+                    let abinds: Vec<String> = (0..n).map(|i| format!("a{i}")).collect();
+                    let arms_of = |vs: &[&Var], wrap_some: bool| -> String {
+                        let mut s = String::new();
+                        for v in vs {
+                            let names: Vec<String> = v.ti_binds().into_iter().flatten().collect();
+                            let ok = if kind == 0 { format!("format!(\"Ok({{:?}})\", {})", tuple_expr(&names)) } else { format!("format!(\"Ok({{:?}})\", {})", addrs(&names)) };
+                            let ok = if wrap_some { format!("Some({ok})") } else { ok };
+                            s.push_str(&format!("{} => {ok}, ", v.pat(&v.ti_binds())));
+                        }
+                        s
+                    };
+                    let (arms, tail) = if murky { (arms_of(&compat, true), "_ => None") } else { (arms_of(&succ, false), if kind == 0 { "w => format!(\"Err(input = {w:?})\")" } else { "w => format!(\"Err(input at {})\", addr(w))" }) };
+                    let get_r = match kind {
+                        0 => format!("let r = match <{ty}>::try_from(mk(i)) {{ Ok(x) => format!(\"Ok({{x:?}})\"), Err(e) => format!(\"Err(input = {{:?}})\", e.input) }};"),
+                        1 => format!("let v = mk(i);\n        let r = match <{ty}>::try_from(&v) {{ Ok({}) => format!(\"Ok({{:?}})\", {}), Err(e) => format!(\"Err(input at {{}})\", addr(e.input)) }};", tuple_expr(&abinds), addrs(&abinds)),
+                        _ => format!("let mut v = mk(i);\n        let r = match <{ty}>::try_from(&mut v) {{ Ok({}) => format!(\"Ok({{:?}})\", {}), Err(e) => format!(\"Err(input at {{}})\", addr(&*e.input)) }};", tuple_expr(&abinds), addrs(&abinds)),
+                    };
+                    let scrut = if kind == 0 { "mk(i)" } else { "&v" };
+                    let get_e = if murky {
+                        let err = if kind == 0 { "format!(\"Err(input = {:?})\", mk(i))".to_string() } else { "format!(\"Err(input at {})\", addr(&v))".to_string() };
+                        format!("let e_ok: Option<String> = match {scrut} {{ {arms}{tail} }};\n        let e = if e_ok.as_ref() == Some(&r) {{ r.clone() }} else {{ {err} }};")
+                    } else {
+                        format!("let e = match {scrut} {{ {arms}{tail} }};")
+                    };
+                    let after = if kind == 2 { "\n        ck(o, \"TryFrom<&mut E> leaves the value unchanged\", i, format!(\"{:?}\", mk(i)), format!(\"{v:?}\"));" } else { "" };
+                    run.push_str(&format!(
+                        "    for i in 0..NV {{\n        {get_r}\n        {get_e}\n        ck(o, {what:?}, i, e, r);{after}\n    }}\n"
+                    ));
+                }
+            }
+        }
+    }
+    if !probes.is_empty() {
+        body.push_str(&format!("impl{decl_gen} E{impl_args} {wh} {{\n{probes}}}\n"));
+    }
+    body.push_str(&format!("#[allow(unreachable_patterns, unused_mut)]\npub fn run(o: &mut Out) {{\n    o.put(\"accessors\", \"{n_accessors}\");\n{run}}}\n"));
+
+    // ---------------------------------------------------------------- bookkeeping
+    let any_ignore = m.vars.iter().any(|v| m.derives.iter().any(|k| v.ignore[*k]));
+    let field_ignore = m.has(3) && m.vars.iter().any(|v| v.fields.iter().any(|f| f.ti_ignore));
+    let max_fields = m.vars.iter().map(|v| v.fields.len()).max().unwrap_or(0);
+    let raw = m.vars.iter().any(|v| v.ident.starts_with("r#"));
+    let name_derives = m.derives.iter().any(|k| *k < 3);
+    if shared_tuple {
+        labels.push("shared_field_type_tuple".into());
+    }
+    if any_ignore {
+        labels.push("variant_ignore".into());
+    }
+    if field_ignore {
+        labels.push("field_ignore".into());
+    }
+    if max_fields >= 2 {
+        labels.push("multi_field_variant".into());
+    }
+    if max_fields >= 3 {
+        labels.push("three_field_variant".into());
+    }
+    if m.derives.iter().any(|k| m.enum_level[*k].is_some()) {
+        labels.push("enum_level_owned_ref_ref_mut".into());
+    }
+    if m.derives.iter().any(|k| m.vars.iter().any(|v| v.level[*k].as_ref().is_some_and(|l| !l.is_empty()))) {
+        labels.push("variant_level_owned_ref_ref_mut".into());
+    }
+    if m.has(3) && m.vars.iter().any(|v| v.level[3].as_ref().is_some_and(|l| l.is_empty())) {
+        labels.push("try_into_opt_in".into());
+    }
+    if m.params != 0 {
+        labels.push("generic".into());
+    }
+    if m.params & 2 != 0 {
+        labels.push("lifetime_param".into());
+    }
+    if m.params & 4 != 0 {
+        labels.push("const_param".into());
+    }
+    if m.vars.iter().any(|v| v.kind == VK::Named) {
+        labels.push("named_variant".into());
+    }
+    if m.vars.iter().any(|v| v.snake.contains('_')) {
+        labels.push("multi_word_variant_name".into());
+    }
+    if raw {
+        labels.push("raw_ident_variant".into());
+    }
+    if m.vars.iter().any(|v| v.kind == VK::Tuple && v.fields.is_empty()) {
+        labels.push("empty_tuple_variant".into());
+    }
+    if n_from_expansion > 0 {
+        labels.push("accessor_set_read_from_expansion".into());
+    }
+    if !probes.is_empty() {
+        labels.push("absence_probe".into());
+    }
+    let mut c = GenCase::new(body);
+    c.labels = labels;
+    c.nontrivial = shared_tuple || any_ignore || field_ignore || max_fields >= 2;
+    c.control = Some(format!("{}{}", m.item(false), m.mk()));
+    c.meta = json!({
+        "raw_ident": raw,
+        "name_derives": name_derives,
+        "accessors": n_accessors,
+        "variants": m.vars.len(),
+        "discovery_notes": found.notes,
+    });
     c
+}
+
+/// Defect models of recorded findings (see known_findings.json).
+fn classify(c: &GenCase, r: &CaseResult, f: &Finding) -> Option<String> {
+    // c11-raw-ident-variant: a raw-identifier variant makes IsVariant/Unwrap/TryUnwrap panic while building the
+    // method name (`is_r#foo` is not a valid identifier). Exactly that and nothing else: every diagnostic of
+    // the case is that panic.
+    if c.expect_compile && !r.compiled && c.meta["raw_ident"] == json!(true) && c.meta["name_derives"] == json!(true) && f.expected == "compiles" {
+        let all = !r.errors.is_empty()
+            && r.errors.iter().all(|d| {
+                d.message.contains("proc-macro derive panicked")
+                    && d.rendered.contains("is not a valid identifier")
+                    && (d.rendered.contains("`\"is_r#") || d.rendered.contains("`\"unwrap_r#") || d.rendered.contains("`\"try_unwrap_r#"))
+            });
+        if all {
+            return Some("c11-raw-ident-variant".into());
+        }
+    }
+    None
 }
 
 pub fn prop() -> DiceProp {
     DiceProp {
         crate_name: "gen_c11",
-        prelude: String::new(),
+        prelude: PRELUDE.to_string(),
         crate_attrs: String::new(),
         nightly: false,
         check_only: false,
-        ndice: 64,
-        quick: (10, 1),
-        thorough: (10, 1),
+        ndice: 260,
+        quick: (420, 1),
+        thorough: (900, 6),
         build,
         fixed: no_fixed,
-        classify: no_classify,
-        rule: "stub".into(),
-        assumptions: vec![],
-        floors: vec![],
+        classify,
+        rule: "enum with 1..5 unit / tuple (0..3 fields) / named variants (named only with IsVariant+TryInto), field types distinct non-ZST newtypes incl. generic (`T`, `W<T>`), borrowed (`&'a A`) and const-generic (`[A; N]`) ones, variants sharing a field-type tuple, `ignore` on variants and (TryInto) fields, enum-level and variant-level owned/ref/ref_mut, TryInto opt-in, multi-word / lower-case / raw-identifier variant names; oracle: full table (one value per variant) x (every accessor that the docs promise or the expansion declares) against hand-written matches (values for owned forms, addresses for ref/mut forms, caught panics, error.input), accessors called by snake_case name, colliding user items for accessors that must be absent; non-trivial = two variants share a field-type tuple, or an ignore, or a variant with >= 2 fields; distinct by program text".into(),
+        assumptions: vec![
+            "snake_case of a variant name is taken as the lower-cased `[A-Z][a-z]+` words joined by `_` (names with digits or acronyms are not generated)".into(),
+            "variant-level owned/ref/ref_mut and mixed opt-in/ignore: the set of accessors is read from the expansion (docs are not crisp), every accessor found is checked".into(),
+        ],
+        floors: vec![
+            ("shared_field_type_tuple".into(), 0.2),
+            ("variant_ignore".into(), 0.2),
+            ("field_ignore".into(), 0.08),
+            ("multi_field_variant".into(), 0.4),
+            ("three_field_variant".into(), 0.1),
+            ("enum_level_owned_ref_ref_mut".into(), 0.3),
+            ("variant_level_owned_ref_ref_mut".into(), 0.05),
+            ("generic".into(), 0.2),
+            ("named_variant".into(), 0.1),
+            ("multi_word_variant_name".into(), 0.5),
+            ("raw_ident_variant".into(), 0.01),
+            ("derive=IsVariant".into(), 0.4),
+            ("derive=Unwrap".into(), 0.3),
+            ("derive=TryUnwrap".into(), 0.3),
+            ("derive=TryInto".into(), 0.4),
+        ],
         shards: 0,
     }
 }
